@@ -1554,20 +1554,16 @@ impl UsageValidator {
             for token in sema.skipped.iter() {
                 sema.used.insert(token.syntax());
             }
-            let mut change = true;
-            while change {
-                let count = sema.used.len();
-                for rule in file.rule_decls(cst) {
-                    if sema.used.contains(&rule.syntax())
-                        && let Some(regex) = rule.regex(cst)
-                    {
-                        Self::set_regex(cst, sema, regex);
-                    }
-                }
-                change = count != sema.used.len();
+            Self::close_used(cst, sema, file);
+            // rules that are only reachable from a part are used as well; they are recorded after
+            // the recovery sets have been set up, which tell referenced and unreferenced parts apart
+            let used_from_start = sema.used.clone();
+            for part in sema.parts.iter() {
+                sema.used.insert(part.syntax());
             }
+            Self::close_used(cst, sema, file);
             for rule in file.rule_decls(cst) {
-                if !sema.used.contains(&rule.syntax()) && !sema.parts.contains(&rule) {
+                if !sema.used.contains(&rule.syntax()) {
                     diags.push(Diagnostic::unused_rule(&rule.span(cst)));
                 }
             }
@@ -1576,6 +1572,21 @@ impl UsageValidator {
                     diags.push(Diagnostic::unused_token(&token.span(cst)));
                 }
             }
+            sema.used = used_from_start;
+        }
+    }
+    fn close_used(cst: &Cst<'_>, sema: &mut SemanticData<'_>, file: File) {
+        let mut change = true;
+        while change {
+            let count = sema.used.len();
+            for rule in file.rule_decls(cst) {
+                if sema.used.contains(&rule.syntax())
+                    && let Some(regex) = rule.regex(cst)
+                {
+                    Self::set_regex(cst, sema, regex);
+                }
+            }
+            change = count != sema.used.len();
         }
     }
     fn set_regex(cst: &Cst<'_>, sema: &mut SemanticData<'_>, regex: Regex) {
@@ -1664,6 +1675,8 @@ impl RecoverySetGenerator {
                 self.add_pred(part_regex, start);
             }
         }
+        // what is only reachable from an unreferenced part is parsed, too
+        UsageValidator::close_used(cst, sema, file);
         for rule in file.rule_decls(cst) {
             if sema.used.contains(&rule.syntax())
                 && let Some(regex) = rule.regex(cst)
